@@ -50,13 +50,13 @@ RESIZE_NN_ALIGN_CORNERS_CASES = True      # RESIZE_NEAREST_NEIGHBOR align_corner
 UNQUANTISED_TRANSPOSE_CASES = True        # TRANSPOSE (exempt from 'must have quantization parameters') without them: AttributeError
 # Round 5 (equivalent encodings of an attribute).  Reproductions: harness/repro/c16_round5_findings.py.  Both classes are
 # generated, judged by the design invariants (EquivalentEncodingsSameExpect), counted in the evidence, but not compiled.
-MEAN_NEGATIVE_AXES_CASES = False          # MEAN whose axes tensor counts an axis from the end: constraint_mean_axis rejects the
+MEAN_NEGATIVE_AXES_CASES = True           # MEAN whose axes tensor counts an axis from the end: constraint_mean_axis rejects the
 #                                           operator (CPU) although the same reduction written with axes >= 0 runs on the NPU
-SLICE_SIZE_MINUS_ONE_CASES = False        # SLICE with a size entry written -1 ("up to the end"): Operation.get_split_inputs_axis adds
+SLICE_SIZE_MINUS_ONE_CASES = True         # SLICE with a size entry written -1 ("up to the end"): Operation.get_split_inputs_axis adds
 #                                           the raw -1 to the begin offset (read box ends before it starts); depending on the
 #                                           dimension, the neighbours and the options this is an AssertionError in
 #                                           high_level_command_stream.Box.__init__ or a silently wrong read region
-SQDIFF_CONST_OPERAND_CPU_NEIGHBOURS = False  # SQUARED_DIFFERENCE with a constant second operand between CPU-only neighbours
+SQDIFF_CONST_OPERAND_CPU_NEIGHBOURS = True   # SQUARED_DIFFERENCE with a constant second operand between CPU-only neighbours
 #                                           ("sandwich"): AssertionError in tflite_writer.serialise_tensor (found by the thorough tier)
 EXP_INT16_WIDE_RANGE = False              # EXP on int16 with scale 0.05 (|x| up to 1638): OverflowError in create_lut_int16_op
 
